@@ -708,6 +708,73 @@ def loop_blocks():
     return out
 
 
+def shape_blocks():
+    """systematic small shapes that mix inferred and explicit sizing: if-expressions with a comparison / an
+    inferred compound / literals of different widths as branches, constant expressions with an operand wider
+    than the folded value, Bits closure constants in constant expressions, loop-variable shift amounts"""
+    def bo(op, a, b):
+        return {"k": "shift" if op in SHIFT_OPS else "binop", "op": op, "a": a, "b": b}
+
+    def cmp_(op, a, b):
+        return {"k": "cmp", "op": op, "a": a, "b": b}
+
+    def ife(c, a, b):
+        return {"k": "ifexp", "c": c, "a": a, "b": b}
+    c1 = sig("i1_0", 1)
+    out = []
+
+    def add(tw, v, loop=None):
+        st = {"k": "assign", "t": sig("o%d_0" % tw, tw), "v": v}
+        if loop:
+            st = {"k": "for", "var": "i", "range": [num(loop)], "body": [st]}
+        out.append(Block("Sh%d" % len(out), [st], tag="shape"))
+    lv = {"k": "loopvar", "name": "i"}
+    for w in (2, 8, 33):
+        a = sig("i%d_0" % w, w)
+        big, small = (1 << w) - 1, 1
+        # a comparison as a branch of an if-expression
+        add(w, ife(c1, a, cmp_("==", a, num(1))))
+        add(w, ife(c1, cmp_("<", a, num(1)), a))
+        add(w, ife(c1, num(big), cmp_("<", c1, num(1))))
+        add(1, ife(c1, cmp_("<", a, num(1)), num(big)))
+        add(1, ife(c1, cmp_("<", a, num(1)), num(1)))
+        # two inferred branches of different widths, narrow / wide first, alone and against an explicit operand
+        for x, y in ((small, big), (big, small), (big, big + 1), (big + 1, big)):
+            add(w, ife(c1, num(x), num(y)))
+            add(w, bo("&", a, ife(c1, num(x), num(y))))
+            add(1, cmp_("==", ife(c1, num(x), num(y)), a))
+        # an inferred compound branch and an explicit one
+        add(w, {"k": "zext", "n": w, "a": ife(c1, bo("+", num(1), num(2)), a)})
+        add(w, {"k": "zext", "n": w, "a": ife(c1, a, bo("+", num(1), num(2)))})
+        add(w, ife(c1, bo("&", num(1), num(big)), a))
+        # constant expressions whose operand is wider than the folded value
+        add(w, bo("+", a, bo(">>", num(1 << w), num(1))))
+        add(w, bo("&", a, bo("&", num(1), num(1 << w))))
+        add(1, cmp_("<", a, bo(">>", num(1 << w), num(w))))
+        add(w, bo(">>", num(1 << w), num(1)))
+        add(w, bo("+", num(1), bo(">>", num(1), num(w + 1))))
+        # loop variable as a shift amount of an inferred operand
+        add(w, bo("&", a, bo(">>", num(big), lv)), loop=w + 2)
+        add(w, bo("&", a, bo("<<", num(1), lv)), loop=w)
+        # Bits closure constants in constant expressions
+        kb = {"k": "bconst", "name": "KS%d" % w, "w": w, "v": big - 1}
+        add(w, bo("*", kb, num(big)))
+        add(w, bo("+", kb, num(1)))
+        add(min(x for x in WIDTHS if x >= 2 * w), bo("*", kb, num(big)))
+        add(w, bo("-", kb, num(big)))
+        add(w, bo("<<", kb, num(1)))
+    # concatenations of up to six operands
+    for parts in ((2, 2, 2, 1), (2, 2, 2, 1, 1), (8, 8, 8, 8), (1, 1, 1, 1, 2, 2), (31, 1, 1), (33, 8, 8, 1)):
+        tw = sum(parts)
+        cc = {"k": "concat", "args": [sig("i%d_%d" % (pw, j % 2), pw) for j, pw in enumerate(parts)]}
+        add(tw, cc)
+        add(1, {"k": "reduce", "op": "xor", "a": cc})          # a context that accepts any width
+    # unary operators on comparisons of ints
+    add(1, {"k": "unop", "op": "~", "a": cmp_("==", num(1), num(1))})
+    add(1, bo("&", c1, {"k": "unop", "op": "~", "a": cmp_("==", lv, num(0))}), loop=2)
+    return out
+
+
 # ------------------------------------------------------------------------------------------
 # TLC model states -> blocks
 # ------------------------------------------------------------------------------------------
